@@ -98,6 +98,23 @@ def evaluate(ident, tier='quick'):
            'detected': r.returncode == 1, 'first_violation': line[0].strip()[:400] if line else None,
            'summary_line': r.stdout.strip().splitlines()[-1][:200] if r.stdout.strip() else ''}
     meta.setdefault('evaluation', {})[tier] = res
+    # a change written against one property may be caught by the check of a related property
+    for other in meta.get('related', []):
+        base2 = scratch()
+        try:
+            apply(base2, os.path.join(d, 'patch.diff'))
+            r2 = subprocess.run([os.path.join(ROOT, 'check'), other, tier], env=dict(os.environ, VERIF_REPO=base2), capture_output=True, text=True)
+        finally:
+            shutil.rmtree(base2, ignore_errors=True)
+            rd2 = os.path.join(ROOT, 'replays', other)
+            if os.path.isdir(rd2):
+                for fn in os.listdir(rd2):
+                    if not fn.startswith('fixed-'):
+                        os.unlink(os.path.join(rd2, fn))
+        l2 = [l for l in r2.stdout.splitlines() if l.startswith('  suite=')]
+        meta['evaluation']['%s via %s' % (tier, other)] = {'exit': r2.returncode, 'detected': r2.returncode == 1,
+                                                           'first_violation': l2[0].strip()[:300] if l2 else None}
+        print('   related check %s: exit=%d %s' % (other, r2.returncode, l2[0].strip()[:150] if l2 else ''))
     json.dump(meta, open(os.path.join(d, 'meta.json'), 'w'), indent=1)
     print('%-10s %-4s %-8s exit=%d %5.0fs %s' % (ident, prop, tier, r.returncode, wall, (line[0].strip()[:170] if line else res['summary_line'])))
     return res
